@@ -23,3 +23,14 @@ Definition effective_lua_path_now : option bytes -> option bytes -> bytes :=
   effective_lua_path default_lua_path.
 Definition require_candidates_now : bytes -> bytes -> bytes -> list bytes :=
   require_candidates path_sep_now placeholder_now.
+
+(* process_includes(lualines, filename) on a file system view; filename = None: the assert fires at the
+   first include line *)
+Definition process_includes_now (cwd home : bytes) (fs : fsview) (filename : option bytes)
+  : list bytes -> result (list bytes) :=
+  process_includes include_newline_kind
+    (match filename with
+     | Some f => resolve_include_now cwd home (fs_isfile fs) f
+     | None => fun _ => Err AssertionError
+     end)
+    (fs_target include_cart_lines_kind fs).
